@@ -295,7 +295,10 @@ namespace detail {
 
         void skip_column()
         {
-            ++name_index_;
+            if (level2_ == 0) // an empty subfield is dropped, the column goes on
+            {
+                ++name_index_;
+            }
         }
         
         int level() const
